@@ -254,3 +254,4 @@ class NexusFitter(object):
 
     def reset_minimizer(self):
         self._minimizer.reset()
+        self.__state_is_from_minimizer = False
